@@ -50,6 +50,17 @@ Theorem C06_batching :
 Proof. exact split_c06. Qed.
 Print Assumptions C06_batching.
 
+(* C06 allows the builder to refuse; this says when it does not: every definition valid and no
+   requested field wider than one request.  Together with the theorem above (no panic) an error
+   therefore means an invalid definition or a field that cannot fit into any request. *)
+Theorem C06_builder_does_not_refuse_needlessly :
+  forall fields t, t < 8 -> Forall field_typed fields ->
+  Forall (fun f => validate f = Ok tt) fields ->
+  Forall (fun f => wanted t f = true -> span f <= kind_limit (target_coils t)) fields ->
+  exists reqs, split fields t = Ok reqs.
+Proof. exact split_succeeds. Qed.
+Print Assumptions C06_builder_does_not_refuse_needlessly.
+
 (* clause 6 read off the wire: the bytes of the specified ADU carry unit, function, start and
    quantity at the offsets of the Modbus layout *)
 Theorem C06_frame_fields_tcp :
